@@ -23,8 +23,10 @@ that after the call that ends the stream it is exactly `output v text`, which de
 * `complete_history_output`, `complete_history_output_raw`: after the final call.
 
 A caller of the raw API who writes NOTHING for `Unmappable` does not produce a prefix of
-`output v text` once a character was unmappable (`output` contains the reference `&#…;`): see the
-example at the end; that reading of the property is false by construction, not a defect.
+`output v text` once a character was unmappable (`output` contains the reference `&#…;`), and for
+ISO-2022-JP not even an error-free stream (doubled escape sequence): see the examples at the end; that
+reading of the property is false by construction (the documentation of `EncoderResult::Unmappable`
+obliges the caller to append a placeholder), not a defect.
 -/
 namespace EncodingRs.Thm.C12Hist
 open EncodingRs EncodingRs.Model EncodingRs.Lemmas.Core EncodingRs.Lemmas.EncCore
@@ -286,5 +288,17 @@ not a prefix of the reference output `a&#233;b` (which is what C12's `output` / 
 example : bytesOnly [.byte 0x61, .unmap 0xE9, .byte 0x62] = [0x61, 0x62]
     ∧ output .eucKr [0x61, 0xE9, 0x62] = [0x61, 38, 35, 50, 51, 51, 59, 0x62] := by
   constructor <;> decide +kernel
+
+/-- … and for ISO-2022-JP such a stream is not even error-free: HIRAGANA A, U+1F600 (unmappable),
+HIRAGANA I — before reporting `Unmappable` from the JIS0208 state the encoder returns to ASCII
+(`ESC ( B`) so that the reference is legal there; with nothing written the next `ESC $ B` follows
+immediately and the decoder reports the doubled escape sequence (`feedAll … = none`; `#eval ref …` gives
+`[cp 3042, err 5 3, cp 3044]`).  The real crate does the
+same (bytes `1b 24 42 24 22 1b 28 42 1b 24 42 24 24 1b 28 42`, `had_errors = true`, text `あ\u{FFFD}い`):
+the documentation of `EncoderResult::Unmappable` obliges the caller to append a placeholder. -/
+example : bytesOnly (eref iso2022JpEFam .ascii [0x3042, 0x1F600, 0x3044])
+      = [0x1B, 0x24, 0x42, 0x24, 0x22, 0x1B, 0x28, 0x42, 0x1B, 0x24, 0x42, 0x24, 0x24, 0x1B, 0x28, 0x42]
+    ∧ feedAll iso2022JpFam isoInit (bytesOnly (eref iso2022JpEFam .ascii [0x3042, 0x1F600, 0x3044])) = none := by
+  refine ⟨by decide +kernel, by decide +kernel⟩
 
 end EncodingRs.Thm.C12Hist
